@@ -74,8 +74,8 @@ class Skel:
         view = self.view
 
         def is_prio(site):
-            f = view.prog.fn(site[0])
-            if f is None or f.term(site[1])["k"] != "call":
+            f = (self._norm.get(site[0]) if self._in_norm else None) or view.prog.fn(site[0])
+            if f is None or site[1] >= len(f.blocks) or f.term(site[1])["k"] != "call":
                 return False
             return view.fx.call_info(f, site[1]).cmp
 
@@ -314,12 +314,16 @@ class Skel:
                 if l[0] not in ("true", "false"):
                     lits.append(l)
         lits = set(lits)
+        # a checked element access that succeeded (`if let Some(slot) = table.get_mut(i)`) decides nothing about the
+        # algorithm: it is the checked spelling of `table[i]`; only its failing edge is a decision
+        lits = {l for l in lits if not (l[1] and CHECKED_ACCESS_RE.match(l[0]))}
         # the body of a continuation closure (`lookup.map(|hit| ..)`) runs exactly when the receiver is Some
         imp = self.implicit_literal(f)
         if imp is not None:
             lits.add(imp)
         # a positive `LEN == k` makes every `LEN != j` redundant (if-chains accumulate them, a match does not)
         lits = simplify_int_literals(lits)
+        lits = resolve_bool_equalities(lits)
         return sorted(lits)
 
     def implicit_literal(self, f):
@@ -374,16 +378,20 @@ class Skel:
         cfg = f.cfg
         facts = set()
 
-        def when(lits):
+        def when1(lits):
             return " & ".join(sorted("%s%s" % ("" if pol else "!", txt) for txt, pol in lits)) or "always"
+
+        def whens(lits):
+            """one guard string per disjunct: an undecided `a == b` on two conditions is (a & b) | (!a & !b)"""
+            return [when1(alt) for alt in expand_bool_equalities(lits)]
 
         for b in sorted(cfg.reach):
             effs = self.block_effects(f, b)
             if not effs:
                 continue
-            w = when(self.dominating_literals(f, b))
-            for e in effs:
-                facts.add("%s  WHEN %s" % (e, w))
+            for w in whens(self.dominating_literals(f, b)):
+                for e in effs:
+                    facts.add("%s  WHEN %s" % (e, w))
         # assignments to multiply-defined user variables (which candidate is selected under which comparison outcome)
         r = self.fvp.reach(f)
         for l in sorted(r.multi):
@@ -399,10 +407,12 @@ class Skel:
                     continue
                 d = r.defs[did]
                 v = self.fvp.def_term(f, d, ())
-                facts.add("SET %s := %s  WHEN %s" % (sig, self.c(v), when(self.dominating_literals(f, d[1]))))
+                for w in whens(self.dominating_literals(f, d[1])):
+                    facts.add("SET %s := %s  WHEN %s" % (sig, self.c(v), w))
         for lp in cfg.loops:
             for (a, h) in lp["backedges"]:
-                facts.add("LOOP-CONTINUES  WHEN %s" % when(self.dominating_literals(f, a)))
+                for w in whens(self.dominating_literals(f, a)):
+                    facts.add("LOOP-CONTINUES  WHEN %s" % w)
         for rb in cfg.returns:
             pass
         r = self.fvp.local(f, 0, cfg.returns[0], 10 ** 6) if cfg.returns else None
@@ -413,9 +423,11 @@ class Skel:
             for d in f.defs.get(0, []):
                 if d[0] == "stmt":
                     v = self.fvp.rvalue(f, d[3]["rv"], d[1], d[2])
-                    facts.add("RETURN %s  WHEN %s" % (self.c(v), when(self.dominating_literals(f, d[1]))))
+                    for w in whens(self.dominating_literals(f, d[1])):
+                        facts.add("RETURN %s  WHEN %s" % (self.c(v), w))
                 elif d[0] == "call":
-                    facts.add("RETURN %s  WHEN %s" % (self.c(self.fvp.call_term(f, d[1])), when(self.dominating_literals(f, d[1]))))
+                    for w in whens(self.dominating_literals(f, d[1])):
+                        facts.add("RETURN %s  WHEN %s" % (self.c(self.fvp.call_term(f, d[1])), w))
         return sorted(facts)
 
     def block_effects(self, f, b):
@@ -443,6 +455,9 @@ class Skel:
             interesting = False
             if ci.local_callee and short not in ("len", "is_empty", "left", "right", "parent", "level", "log2_fast", "get_priority_from_position"):
                 interesting = True
+                lc = view.prog.fn(ci.local_callee)
+                if short in ("eq", "ne") and lc is not None and lc.j.get("auto_derived"):
+                    interesting = False   # `a == b` on Position / Index (derived): a condition, like `a != b`
             if ci.cmp and not ci.local_callee:
                 # selections (min_by_key ...) are effects; plain comparisons show up as conditions
                 if short in ("min_by_key", "max_by_key", "min_by", "max_by", "min", "max", "cmp", "partial_cmp", "sort_by", "sort_by_key"):
@@ -538,8 +553,112 @@ def simplify_int_literals(lits):
     return out
 
 
+def _flip(lit):
+    """the negation of a literal, integer bounds kept in their positive normal form"""
+    txt, pol = lit
+    m = re.match(r"^(LE|GE)\((.*),(\d+)\)$", txt)
+    if m and pol:
+        k = int(m.group(3))
+        if m.group(1) == "LE":
+            return ("GE(%s,%d)" % (m.group(2), k + 1), True)
+        if k >= 1:
+            return ("LE(%s,%d)" % (m.group(2), k - 1), True)
+    return (txt, not pol)
+
+
+def _truth_in(lits, txt, pol):
+    """is the literal (txt, pol) decided by the set?  True / False / None"""
+    for t, p in lits:
+        if t == txt:
+            return p == pol
+    m = re.match(r"^(LE|GE)\((.*),(\d+)\)$", txt)
+    if m:
+        k = int(m.group(3))
+        comp = "GE(%s,%d)" % (m.group(2), k + 1) if m.group(1) == "LE" else ("LE(%s,%d)" % (m.group(2), k - 1) if k >= 1 else None)
+        if comp:
+            for t, p in lits:
+                if t == comp:
+                    return (not p) == pol
+    return None
+
+
+def resolve_bool_equalities(lits):
+    """`a == b` on two conditions (`if on_min_level == above_parent`), with one side decided by another literal of the same
+    conjunction, says what the other side is: the literal is replaced by that"""
+    lits = set(lits)
+    changed = True
+    while changed:
+        changed = False
+        for (txt, pol) in sorted(lits):
+            m = re.match(r"^Eq\((.*)\)$", txt)
+            if not m:
+                continue
+            a, b = split_top(m.group(1))
+            if not a or not b:
+                continue
+            na, nb = normalise_bool(a, True), normalise_bool(b, True)
+            if na[0] == a and nb[0] == b and not (a.startswith(("plt(", "Lt(", "Eq(", "LE(", "GE(")) or b.startswith(("plt(", "Lt(", "Eq(", "LE(", "GE("))):
+                continue   # not two conditions
+            rest = lits - {(txt, pol)}
+            for (x, y) in ((na, nb), (nb, na)):
+                tv = _truth_in(rest, x[0], x[1])
+                if tv is None:
+                    continue
+                # Eq true: y == x ; Eq false: y == !x
+                yv = tv if pol else (not tv)
+                lits = rest | {y if yv else _flip(y)}
+                changed = True
+                break
+            if changed:
+                break
+    return lits
+
+
+def expand_bool_equalities(lits):
+    """[literal set, ...]: every still undecided equality of two conditions split into its two cases"""
+    lits = set(lits)
+    for (txt, pol) in sorted(lits):
+        m = re.match(r"^Eq\((.*)\)$", txt)
+        if not m:
+            continue
+        a, b = split_top(m.group(1))
+        if not a or not b:
+            continue
+        na, nb = normalise_bool(a, True), normalise_bool(b, True)
+        cond = lambda x: x.startswith(("plt(", "Lt(", "Eq(", "LE(", "GE(", "EQ(", "some("))
+        if not (cond(na[0]) and cond(nb[0])) or (na[0] == a and not cond(a)) or (nb[0] == b and not cond(b)):
+            continue
+        rest = lits - {(txt, pol)}
+        out = []
+        for va in (True, False):
+            vb = va if pol else (not va)
+            alt = rest | {na if va else _flip(na), nb if vb else _flip(nb)}
+            alt = resolve_bool_equalities(simplify_int_literals(alt))
+            out.extend(expand_bool_equalities(alt))
+        return out
+    return [lits]
+
+
+CHECKED_ACCESS_RE = re.compile(r"^some\((?:\[T\]|std::vec::Vec|core::slice|std::slice)[A-Za-z_:<>]*::(get|get_mut)\(P1\.(?:store\.)?(?:heap|qp),")
+
+
+ORD_EQ_RE = re.compile(r"^(Eq|Ne|std::cmp::PartialEq::eq|std::cmp::PartialEq::ne)\(Ordering::(Less|Equal|Greater)\(\),(std::cmp::(?:Ord::cmp|PartialOrd::partial_cmp))\((.*)\)\)$")
+
+
 def normalise_bool(txt, truth):
     """(canonical text, polarity): le(a,b) == !lt(b,a); Le/Lt on integers likewise; Ne == !Eq; is_empty == eq(LEN,0)"""
+    m = ORD_EQ_RE.match(txt)
+    if m and m.group(2) in ("Less", "Greater"):
+        # `a.cmp(b) == Ordering::Greater`  is  b < a ;  `== Less` is a < b
+        a, b = split_top(m.group(4))
+        if m.group(1) in ("Ne", "std::cmp::PartialEq::ne"):
+            truth = not truth
+        return ("plt(%s,%s)" % ((b, a) if m.group(2) == "Greater" else (a, b)), truth)
+    mq = re.match(r"^<store::(?:Position|Index) as PartialEq<[A-Za-z:]*>>::(eq|ne)\((.*)\)$", txt)
+    if mq:
+        a, b = split_top(mq.group(2))
+        a, b = sorted((a, b))
+        return ("Eq(%s,%s)" % (a, b), truth if mq.group(1) == "eq" else not truth)
     m = CMP_RE.match(txt)
     if m:
         p, op, args = m.groups()
